@@ -45,16 +45,17 @@ Qed.
 Lemma u16_be_two : forall v, exists a b, u16_be v = [a; b].
 Proof. intros v. Local Transparent u16_be. unfold u16_be. eexists _, _. reflexivity. Local Opaque u16_be. Qed.
 
-(* a QoS 1 PUBLISH is answered with the PUBACK of its identifier *)
-Lemma broker_reply_publish_q1 : forall mode fl rl topic id rest,
-  (fl / 2) mod 4 = 1 -> fl / 16 = 3 ->
+(* a QoS 1 / QoS 2 PUBLISH is answered with the PUBACK / PUBREC of its identifier *)
+Definition ack_head (q : qos) : N := match q with Q1 => 64 | _ => 80 end.
+Lemma broker_reply_publish : forall mode fl rl topic id rest q,
+  q <> Q0 -> (fl / 2) mod 4 = qos_n q -> fl / 16 = 3 ->
   varint_write (lenN ((u16_be (lenN topic) ++ topic) ++ u16_be id ++ rest)) = Some rl -> lenN topic < 65536 ->
-  broker_reply mode (fl :: rl ++ (u16_be (lenN topic) ++ topic) ++ u16_be id ++ rest) = 64 :: [2] ++ u16_be id.
+  broker_reply mode (fl :: rl ++ (u16_be (lenN topic) ++ topic) ++ u16_be id ++ rest) = ack_head q :: [2] ++ u16_be id.
 Proof.
-  intros mode fl rl topic id rest Hq Ht Hrl Hl. unfold broker_reply.
+  intros mode fl rl topic id rest q Hq0 Hq Ht Hrl Hl. unfold broker_reply.
   rewrite (varint_roundtrip _ _ _ Hrl), Ht. change (3 =? 3) with true. cbv iota. rewrite Hq.
   rewrite <- app_assoc. rewrite (read_u16_be _ _ Hl). rewrite dropN_app_exact.
-  destruct (u16_be_two id) as [a [b E]]. rewrite E. cbn [app]. change (1 =? 1) with true. reflexivity.
+  destruct (u16_be_two id) as [a [b E]]. rewrite E. cbn [app]. destruct q; [contradiction|reflexivity|reflexivity].
 Qed.
 
 (* one complete packet in the broker's buffer: it is taken whole and answered *)
@@ -186,24 +187,25 @@ Proof.
 Qed.
 
 (* ---------------------------------------------------------------- publish(): the PUBLISH goes out, the broker answers *)
-Theorem publish_q1_is_sent_and_answered : forall w r s2 op ps,
+Theorem publish_is_sent_and_answered : forall w r s2 op ps q,
   Hc w ->
   ob_ctl (s_ob (w_sess w)) = [] -> ob_rel (s_ob (w_sess w)) = [] -> ob_ret (s_ob (w_sess w)) = [] ->
   rt_ka_ms (s_rt (w_sess w)) = 0 -> rt_next_ping (s_rt (w_sess w)) = None -> rt_ping_timeout (s_rt (w_sess w)) = None ->
   w_broker w = 1 -> w_txbuf w = [] -> w_inq w = [] -> w_last_arrival w <= w_now w ->
   publish_middle (w_sess w) true r = (s2, MRetained op) ->
-  effective_qos (w_sess w) (pr_qos r) = Q1 -> pr_props r = PSlice ps -> op_pid op < 65536 ->
+  effective_qos (w_sess w) (pr_qos r) = q -> q <> Q0 -> pr_props r = PSlice ps -> op_pid op < 65536 ->
   exists w1 bs cap off e,
     op_publish FUEL r w = (w1, ODone (Some op)) /\
-    enc_publish cap (pub_request r Q1 (op_pid op)) = SOk off bs /\
+    enc_publish cap (pub_request r q (op_pid op)) = SOk off bs /\
     w_wire w1 = w_wire w ++ bs /\
-    w_inq w1 = [(w_now w, 64 :: [2] ++ u16_be (op_pid op))] /\
+    w_inq w1 = [(w_now w, ack_head q :: [2] ++ u16_be (op_pid op))] /\
     Hc w1 /\ s_reader (w_sess w1) = s_reader (w_sess w) /\ w_now w1 = w_now w /\
+    w_broker w1 = 1 /\ w_txbuf w1 = [] /\ w_last_arrival w1 = w_now w /\ rt_ka_ms (s_rt (w_sess w1)) = 0 /\
     rt_next_ping (s_rt (w_sess w1)) = None /\ rt_ping_timeout (s_rt (w_sess w1)) = None /\
     ob_ctl (s_ob (w_sess w1)) = [] /\ ob_rel (s_ob (w_sess w1)) = [] /\
     ob_ret (s_ob (w_sess w1)) = [sent_entry e] /\ re_pid e = op_pid op.
 Proof.
-  intros w r s2 op ps Hcw Ec El Er Hka Hnp Hpt Hbr Htx Hiq Hla Hm Hq1 Hps Hid.
+  intros w r s2 op ps q Hcw Ec El Er Hka Hnp Hpt Hbr Htx Hiq Hla Hm Hq1 Hq0 Hps Hid.
   pose proof Hcw as [Hs [Hl [I [Hmps [_ [HB HF]]]]]].
   assert (Hq : PQ w).
   { split; [|apply calm_nil; exact Hs]. unfold should_queue_pingreq. rewrite Hpt, Hnp. reflexivity. }
@@ -243,12 +245,12 @@ Proof.
   pose proof (V3 bs (re_len e) Hprep) as V.
   destruct (publish_layout cap _ off bs ps (op_pid op) Hb Hps eq_refl) as [rl [rest [Elay [Hrl Htl]]]].
   cbn [pub_request pq_topic] in Elay, Hrl, Htl.
-  set (fl := 3 * 16 + publish_flags (pub_request r Q1 (op_pid op)) mod 16) in *.
-  destruct (publish_hdr_arith Q1 (pr_retain r) false) as [A1 [A2 _]]. cbv zeta in A1, A2.
-  assert (Hfl : fl / 16 = 3 /\ (fl / 2) mod 4 = 1) by (unfold fl, publish_flags; cbn [pub_request pq_qos pq_retain pq_dup]; split; [exact A1|exact A2]).
-  assert (Hrep : broker_reply 1 bs = 64 :: [2] ++ u16_be (op_pid op)).
-  { rewrite Elay. apply broker_reply_publish_q1; [exact (proj2 Hfl)|exact (proj1 Hfl)|exact Hrl|exact Htl]. }
-  assert (Hfeed : broker_view (broker_feed w2 bs) = (1, [], [(w_now w, 64 :: [2] ++ u16_be (op_pid op))], w_now w)).
+  set (fl := 3 * 16 + publish_flags (pub_request r q (op_pid op)) mod 16) in *.
+  destruct (publish_hdr_arith q (pr_retain r) false) as [A1 [A2 _]]. cbv zeta in A1, A2.
+  assert (Hfl : fl / 16 = 3 /\ (fl / 2) mod 4 = qos_n q) by (unfold fl, publish_flags; cbn [pub_request pq_qos pq_retain pq_dup]; split; [exact A1|exact A2]).
+  assert (Hrep : broker_reply 1 bs = ack_head q :: [2] ++ u16_be (op_pid op)).
+  { rewrite Elay. apply broker_reply_publish; [exact Hq0|exact (proj2 Hfl)|exact (proj1 Hfl)|exact Hrl|exact Htl]. }
+  assert (Hfeed : broker_view (broker_feed w2 bs) = (1, [], [(w_now w, ack_head q :: [2] ++ u16_be (op_pid op))], w_now w)).
   { rewrite Elay. rewrite broker_feed_one; [|cbn [w2 w_broker upd_sess]; rewrite Hbr; discriminate|cbn [w2 w_txbuf upd_sess]; exact Htx|exact Hrl|].
     - cbv zeta. unfold broker_view. cbn [w2 w_broker w_txbuf w_inq w_last_arrival w_now upd_inq upd_txbuf upd_sess].
       rewrite Hbr, Hiq, <- Elay, Hrep. replace (N.max (w_now w) (w_last_arrival w)) with (w_now w) by lia. reflexivity.
@@ -264,6 +266,7 @@ Proof.
     split; [reflexivity|]. destruct Hpf as [Hpf _]. rewrite Hpf. exact Hpt. }
   exists w3, bs, cap, off, e. split; [reflexivity|]. split; [exact Hb|]. split; [exact Hw3|]. split; [exact Vi|].
   split; [exact Hc3|]. split; [rewrite R3; cbn [w2 w_sess upd_sess]; exact Hrd2|]. split; [rewrite N3; reflexivity|].
+  split; [exact Vb|]. split; [exact Vt|]. split; [exact Vl|]. split; [rewrite Ert3; cbn [note_outbound_activity rt_with_timers rt_ka_ms]; rewrite Hka2; exact Hka|].
   split; [exact (proj1 Hrt3)|]. split; [exact (proj2 Hrt3)|]. split; [exact Ec3|]. split; [exact El3|]. split; [exact Er3|exact Epid].
 Qed.
 
@@ -285,8 +288,8 @@ Theorem qos1_exchange_completes : forall w r s2 op ps,
     rt_quota (s_rt (w_sess w2)) = N.min (N.min (rt_quota (s_rt (w_sess w1)) + 1) 65535) (rt_maxquota (s_rt (w_sess w1))).
 Proof.
   intros w r s2 op ps Hcw Ec El Er Hka Hnp Hpt Hbr Htx Hiq Hla Hrd Hrp Hcap Hm Hq1 Hps Hid.
-  destruct (publish_q1_is_sent_and_answered w r s2 op ps Hcw Ec El Er Hka Hnp Hpt Hbr Htx Hiq Hla Hm Hq1 Hps Hid)
-    as [w1 [bs [cap [off [e [E1 [Hb [Hw1 [Hi1 [Hc1 [R1 [N1 [Np1 [Pt1 [Ec1 [El1 [Er1 Epid]]]]]]]]]]]]]]]]].
+  destruct (publish_is_sent_and_answered w r s2 op ps Q1 Hcw Ec El Er Hka Hnp Hpt Hbr Htx Hiq Hla Hm Hq1 ltac:(discriminate) Hps Hid)
+    as [w1 [bs [cap [off [e [E1 [Hb [Hw1 [Hi1 [Hc1 [R1 [N1 [_ [_ [_ [_ [Np1 [Pt1 [Ec1 [El1 [Er1 Epid]]]]]]]]]]]]]]]]]]]]].
   pose proof Hc1 as [Hs1 [Hl1 [I1 _]]].
   assert (Hret : has_retained (s_ob (w_sess w1)) (op_pid op) = true).
   { unfold has_retained. rewrite Er1. cbn [existsb sent_entry re_pid]. rewrite Epid, N.eqb_refl. reflexivity. }
